@@ -367,18 +367,22 @@ class PayloadCheck:
         s.maxlen = params.get('maxlen', 3)
         s.utf8 = params.get('utf8', False)
         s.slack = params.get('slack', 0)
+        s.two_digit = params.get('two_digit', False)
         s.twin = params.get('twin', False)
 
     def body(s):
         ex, w = s.ex, s.w
         from ..natives import in_range
         prefix = ex.decide([(i, True) for i in range(3)])     # 0: none, 1: 'A:B;' (relative context), 2: a string unit 'S "a";' first
-        form = ex.decide([(i, True) for i in range(3)])          # 0: #block, 1: "string", 2: 'string'
+        form = ex.decide([(i, True) for i in range(4 if s.two_digit else 3)])     # 0: #1d block, 1: "string", 2: 'string', 3: #2dd block
         suffix = ex.decide([(i, True) for i in range(2)])
         ln = ex.decide([(i, True) for i in range(0, s.maxlen + 1)])
         pay = [z3.BitVec(f'p{i}', 8) for i in range(ln)]
         if form == 0:
             lit = list(b'#1') + [48 + ln] + pay
+            hdr = b'K'
+        elif form == 3:
+            lit = list(b'#2') + [48 + ln // 10, 48 + ln % 10] + pay
             hdr = b'K'
         else:
             q = 34 if form == 1 else 39
